@@ -105,6 +105,7 @@ def run_case(case, ctx):
     import random as _random
     rnd2 = _random.Random(case.get("pseed", 0))
     opi = 0
+    handed_out = []
     for op in case["ops"]:
         kb = unhx(op[1])
         k = int.from_bytes(kb, "big")
@@ -119,6 +120,11 @@ def run_case(case, ctx):
             ctx.count("deletions_fed")
             if k == tracked:
                 ctx.count("tracked_deleted")
+        handed_out.append((upd, tuple(upd)))
+        for obj, was in handed_out[-4:]:
+            if tuple(obj) != was:
+                raise Violation("smtproof-branch", "the node hashes returned by an earlier set/delete changed when a later one was made "
+                                "(a consumer that applies queued updates would be fed the wrong hashes)")
         diff = tracked ^ k
         if diff:
             bp = depth - diff.bit_length()      # index of the first differing bit, MSB first
